@@ -24,7 +24,7 @@ pub enum Case {
   Prog(Vec<u32>),
 }
 
-fn corpus(which: &str) -> &'static Vec<(String, String)> {
+pub fn corpus(which: &str) -> &'static Vec<(String, String)> {
   static S: std::sync::OnceLock<Vec<(String, String)>> = std::sync::OnceLock::new();
   static F: std::sync::OnceLock<Vec<(String, String)>> = std::sync::OnceLock::new();
   let load = |name: &str| -> Vec<(String, String)> {
